@@ -213,3 +213,16 @@ Theorem C20_redis_db_numeric : forall s v,
   - 2 ^ 63 <= v <= max_int64.
 Proof. exact atoi_some_iff. Qed.
 Print Assumptions C20_redis_db_numeric.
+
+(* lists of hook configurations (middleware.HooksFromHookConfigs, what start-up does with the configured hooks):
+   the list builds iff EVERY entry builds - an unknown name or out-of-range options refuse the whole list
+   wherever the entry stands *)
+Theorem C20_hook_list_built_iff : forall l,
+  hooks_from_configs l = Built <-> Forall (fun x : bytes * hook_opts => new_hook (fst x) (snd x) = Built) l.
+Proof. exact hook_list_built_iff. Qed.
+Print Assumptions C20_hook_list_built_iff.
+
+Theorem C20_hook_list_bad_entry_refuses : forall l1 n o l2,
+  new_hook n o <> Built -> hooks_from_configs (l1 ++ (n, o) :: l2) <> Built.
+Proof. exact hook_list_bad_entry_refuses. Qed.
+Print Assumptions C20_hook_list_bad_entry_refuses.
